@@ -19,15 +19,19 @@ MANIFEST_ENTRY = {
             "table EXACTLY (state numbering, cell contents and order, gotos, finish flags) on every explored "
             "grammar and option combination; theorems: FIRST sets are a fixpoint containing exactly what the "
             "productions force (C05_first_*), the cell resolution function only removes or appends (no action is "
-            "invented); the canonical LR(1) / LALR(1) reference automata of Spec/LR1.lean decide 'nothing valid "
-            "missing' and 'no reduction outside the LALR(1) lookahead' on every explored table; termination is "
-            "decided by a reference-derived state budget through the guarded hook",
+            "invented). NOTHING VALID IS MISSING is proved by validation: every table that passes the completeness "
+            "validator of Spec/LRValid.lean with its item sets gives every sentence of every input an accepting run "
+            "of the nondeterministic LR automaton (C05_validated_table_complete / _exact), and the validator is "
+            "evaluated on every strategy-free LALR and SLR table of the implementation (main and LAYOUT start) with "
+            "the implementation's own item sets and FIRST sets; the canonical LR(1) / LALR(1) reference automata of "
+            "Spec/LR1.lean decide 'no reduction outside the LALR(1) lookahead' on every explored table; termination "
+            "is decided by a reference-derived state budget through the guarded hook",
     "note": "trusted: Lean kernel; the table model is hand-written and validated by exact correspondence; "
-            "Spec/LR1.lean is executable spec (unproved); termination, lookahead completeness and the LALR(1) bound "
+            "Spec/LR1.lean is executable spec (unproved); termination and the LALR(1) upper bound on lookaheads "
             "are decided on the explored scope (exhaustive small grammars, nullable-chain family, fixed and seeded "
             "random streams), not by theorem",
-    "technique": "Lean 4 model with exact correspondence + Lean reference automata (canonical LR(1), LALR(1)) + "
-                 "proved lemmas about FIRST and cell resolution",
+    "technique": "Lean 4 proof of completeness by validation (Jourdan-Pottier-Leroy style validator, simulation lemma) + "
+                 "Lean model with exact correspondence + Lean reference automata (canonical LR(1), LALR(1))",
 }
 
 PROP = "C05"
